@@ -109,6 +109,10 @@ type Analyzer struct {
 	Invariant func(a *Analyzer, st *State, owner, field, obj string) (AVal, bool)
 	// EntryAssume may add facts about the arguments of an entry function (documented preconditions).
 	EntryAssume func(a *Analyzer, st *State, fn *ssa.Function, args []AVal)
+	// JoinFacts: at a join of two to four edges keep the branch facts (or their relaxation by one) that hold on every
+	// incoming edge - `x > y` on one edge and `x == y` on the other give `x >= y` behind the join. Costs solver
+	// calls at every join: switched on for the ring analysis only.
+	JoinFacts bool
 	// Probe, when set, is called in recording runs before every instruction (Instr != nil) and on every
 	// control-flow edge (From/To set, St refined by the branch condition) of every analysed frame.
 	Probe func(p *Probe)
@@ -643,6 +647,36 @@ func (in *inst) merge(b *ssa.BasicBlock, preds []*State, predBlocks []*ssa.Basic
 			}
 		}
 	}
+	if in.a.JoinFacts && len(preds) >= 2 && len(preds) <= 4 {
+		base := len(st.Facts)
+		var cands []Ineq
+		seen := map[string]bool{}
+		for _, p := range preds {
+			if len(p.Facts) < base || len(p.Facts)-base > 12 {
+				continue
+			}
+			for _, f := range p.Facts[base:] {
+				for _, c := range []Ineq{f, {f.L.AddK(1)}} {
+					if k := c.String(); !seen[k] && len(cands) < 48 {
+						seen[k] = true
+						cands = append(cands, c)
+					}
+				}
+			}
+		}
+		for _, c := range cands {
+			all := true
+			for _, p := range preds {
+				if !Proves(p.Facts, c) {
+					all = false
+					break
+				}
+			}
+			if all {
+				st.Facts = append(st.Facts, c)
+			}
+		}
+	}
 	if l != nil {
 		// loop header: the heap is unknown inside the loop when the body stores to it or calls out;
 		// a loop that only reads (a scan over a slice) keeps what was known before it
@@ -1129,6 +1163,17 @@ func (in *inst) assume(st *State, cond ssa.Value, truth bool) {
 		// when exactly one matches (`if !bf.waitForConsumer(wrap) { return EOF }`)
 		if ov := in.val(st, c); ov.Rec != nil {
 			in.importReturnBool(st, ov, truth)
+		}
+	case *ssa.Parameter:
+		// a boolean parameter of an inlined helper bound to a constant at the call site (`waitFor(pos, true)`): the edge
+		// for the other value carries a contradiction, so it contributes nothing at the joins behind it
+		if bt, ok := c.Type().Underlying().(*types.Basic); ok && bt.Kind() == types.Bool {
+			if ov, bound := in.env[c]; bound && ov.Kind == KInt && ov.Int.IsConst() {
+				isTrue := Proves(nil, GE(ov.Int, Const(1)))
+				if isTrue != truth {
+					st.Dead = true
+				}
+			}
 		}
 	}
 }
